@@ -83,15 +83,17 @@ impl BufferWindow {
     #[inline]
     pub fn fill_buf(&mut self, mut reader: impl Read) -> Result<usize, BufferError> {
         let carry_over = self.window_len();
-        if carry_over >= self.buf.len() {
+        if self.buf.is_empty() {
+            // reading from a slice: all the data is already in the window
             return Ok(0);
+        }
+
+        if carry_over >= self.buf.len() {
+            return Err(BufferError::BufferFull);
         }
 
         // Copy over the unconsumed bytes to the start of the buffer
         if carry_over != 0 {
-            if carry_over >= self.buf.len() {
-                return Err(BufferError::BufferFull);
-            }
             self.buf.copy_within(self.consumed_data().., 0);
         }
 
